@@ -431,7 +431,14 @@ func (c *VCtx) translate(sc *Scope, e Expr) Val {
 		if len(x.Triggers) > 0 {
 			var pats []string
 			for _, te := range x.Triggers {
-				pats = append(pats, c.asTerm(c.translate(n, te)).S)
+				pt := c.asTerm(c.translate(n, te)).S
+				if call, ok := te.(*ECall); ok && call.Fn == "in" && strings.HasPrefix(pt, "(and ") {
+					// in(m, k) is "m != nil && dom(m)[k]": only the membership term can serve as a pattern
+					if i := strings.Index(pt, "(select (select "); i > 0 {
+						pt = strings.TrimSuffix(pt[i:], ")")
+					}
+				}
+				pats = append(pats, pt)
 			}
 			return T(SBool, fmt.Sprintf("(%s (%s) (! %s :pattern (%s)))", q, strings.Join(binders, " "), body.S, strings.Join(pats, " ")))
 		}
